@@ -54,11 +54,42 @@ type Spec struct {
 	Tiers         map[string]TierSpec `json:"tiers"`
 	Covers        []string            `json:"covers"`
 	ReplayRewrite []string            `json:"replay_rewrite"`
+	// Patches are exact textual substitutions applied to /repo's current source (symbolic run and
+	// native run alike) at stub boundaries, e.g. to route a package-level crypto constructor to a
+	// harness stub. A pattern that does not occur exactly once makes the run inconclusive.
+	Patches []PatchSpec `json:"patches"`
 	Assumptions   []string            `json:"assumptions"`
 	NotCovered    []string            `json:"not_covered"`
 	Stubs         []string            `json:"stubs"`
 	NoopPkgs      []string            `json:"noop_pkgs"`
 	Level         string              `json:"level"`
+}
+
+type PatchSpec struct {
+	File string `json:"file"`
+	Old  string `json:"old"`
+	New  string `json:"new"`
+}
+
+// patchedSources applies spec.Patches to the current /repo files.
+func patchedSources(spec *Spec) (map[string][]byte, error) {
+	out := map[string][]byte{}
+	for _, p := range spec.Patches {
+		path := filepath.Join(repoDir, p.File)
+		src, ok := out[path]
+		if !ok {
+			b, err := os.ReadFile(path)
+			if err != nil {
+				return nil, err
+			}
+			src = b
+		}
+		if n := strings.Count(string(src), p.Old); n != 1 {
+			return nil, fmt.Errorf("patch for %s: pattern occurs %d times (expected once): %q", p.File, n, firstLine(p.Old, 80))
+		}
+		out[path] = []byte(strings.Replace(string(src), p.Old, p.New, 1))
+	}
+	return out, nil
 }
 
 type KnownFinding struct {
@@ -399,6 +430,13 @@ func overlayFor(spec *Spec) (map[string][]byte, error) {
 		}
 		ov[filepath.Join(repoDir, virt)] = src
 	}
+	ps, err := patchedSources(spec)
+	if err != nil {
+		return nil, err
+	}
+	for path, src := range ps {
+		ov[path] = src
+	}
 	return ov, nil
 }
 
@@ -656,11 +694,34 @@ func runNative(spec *Spec, cases []nativeCase) ([]nativeResult, error) {
 	testFile := filepath.Join(tmp, "zz_verif_replay_test.go")
 	os.WriteFile(testFile, []byte(sb.String()), 0o644)
 	replace[filepath.Join(repoDir, strings.TrimPrefix(spec.TestPkg, "./"), "zz_verif_replay_test.go")] = testFile
+	patched, err := patchedSources(spec)
+	if err != nil {
+		return nil, err
+	}
+	k := 0
+	for path, src := range patched {
+		rewritten := false
+		for _, f := range spec.ReplayRewrite {
+			if filepath.Join(repoDir, f) == path {
+				rewritten = true
+			}
+		}
+		if rewritten {
+			continue // written below, after the clock rewrite
+		}
+		pp := filepath.Join(tmp, fmt.Sprintf("patched%d.go", k))
+		k++
+		os.WriteFile(pp, src, 0o644)
+		replace[path] = pp
+	}
 	// time.Now() -> verif.Now() in the listed files (native runs only)
 	for i, f := range spec.ReplayRewrite {
 		src, err := os.ReadFile(filepath.Join(repoDir, f))
 		if err != nil {
 			return nil, err
+		}
+		if ps, ok := patched[filepath.Join(repoDir, f)]; ok {
+			src = ps
 		}
 		out, err := rewriteTimeNow(string(src))
 		if err != nil {
